@@ -20,7 +20,7 @@ CHECKS = {
          "Traversal semantics of the pinned go-ipld-prime v0.21.0.",
          "DESIGN.md §5 C03"),
  "C06": ("bounded-exhaustive enumeration + exhaustive single-block withholding + deviation-bounded fault DFS",
-         "Every file shape and sharded directory through the preload reifier, preload selector and entity selector+consume: requested set == entity blocks, no entry block; every single entity block withheld (two error kinds) and every k-th-load-fails sequence (<= 2 failures) must produce an error.",
+         "Every file shape (both writers and hand-written legal encodings: dag-pb leaves, absent BlockSizes/FileSize, empty chunks) and sharded directory through the preload reifier, preload selector and entity selector+consume: requested set == entity blocks, no entry block; every single entity block withheld (three error kinds) and every k-th-load-fails sequence (<= 2 failures) must produce an error.",
          "Independent model of the entity's block set.",
          "DESIGN.md §5 C06"),
  "C10": ("stateless deviation-bounded DFS over map-iteration orders, entry permutations and reader fragmentation",
@@ -28,7 +28,7 @@ CHECKS = {
          "Maps with > 4 keys get rotations/reversal/adjacent swaps, not all permutations. Overlay rewrite is add-only and leaves /repo untouched.",
          "DESIGN.md §5 C10"),
  "C12": ("exhaustive fault enumeration (single blocks, full powerset <= 10 blocks) + deviation-bounded transient-fault DFS",
-         "Every single block and every subset of blocks (DAGs <= 10 blocks) withheld with two error kinds, and every 'k-th load fails' sequence with <= 2 failures, on files (incl. repeated chunks) and sharded directories from both writers: bytes before the error, error identity, lookup errors vs not-found, iteration entries and error counts are compared with an independent model.",
+         "Every single block and every subset of blocks (DAGs <= 10 blocks) withheld with three error kinds (not-found, opaque, bare io.ErrUnexpectedEOF), and every 'k-th load fails' sequence with <= 2 failures, on files (incl. repeated chunks and hand-written encodings without size information) and sharded directories from both writers: bytes before the error, error identity, lookup errors vs not-found, iteration entries and error counts are compared with an independent model.",
          "Powerset only for DAGs with <= 10 blocks (reported as cap).",
          "DESIGN.md §5 C12"),
  "C16": ("stateless deviation-bounded DFS over write faults and map orders with a crash-point invariant after every commit",
@@ -36,7 +36,7 @@ CHECKS = {
          "Build menu: files 0..10 chunks at w in {2,3}, symlink, plain/sharded dirs, recursive import, quick builder (ordering only).",
          "DESIGN.md §5 C16"),
  "C17": ("stateless model checking of thread interleavings (cooperative scheduler, iterative preemption bounding) + happens-before race oracle",
-         "Real goroutines run one visible operation at a time (instrumented field accesses, modelled locks/Once/atomics, block loads); all schedules with <= 1/2 preemptions (2-thread scenarios also unbounded in thorough) of 9 scenarios on one shared node are executed; every execution is checked for data races (co-enabled conflicting accesses, vector-clock analysis), result equality with the solo run, panics and deadlocks. A separate free-running -race pass is auxiliary evidence.",
+         "Real goroutines run one visible operation at a time (instrumented accesses to struct fields and package-level variables, modelled locks/Once/atomics, block loads); all schedules within iterated preemption bounds (2 quick, 3 thorough) of 11 scenarios on one shared node are executed; every execution is checked for data races (co-enabled conflicting accesses, vector-clock analysis), result equality with the solo run, panics and deadlocks. A separate free-running -race pass is auxiliary evidence.",
          "Sequential consistency at the granularity of hooked accesses; weak-memory effects out of reach. Scheduling points restricted to sites found shared (fixpoint).",
          "DESIGN.md §5 C17"),
  "C18": ("bounded-exhaustive on-disk tree enumeration vs independent filesystem walk",
@@ -48,8 +48,8 @@ CHECKS = {
          "Built as a test binary because the generators need *testing.T. Horizon 600 reads.",
          "DESIGN.md §5 C19"),
  "C04": ("explicit-state BFS over Seek/Read histories vs io.ReadSeeker model",
-         "Breadth-first search over all histories of Read(k)/Seek(o,whence) with boundary arguments on single-block, wrapped and multi-level files, one and two readers (same node / separate nodes), deduplicated on (offset, inner-reader flag, creation offset) read from the implementation through a build-tagged hook, until no new state; plus all depth-3 histories without deduplication.",
-         "State key argued over-fine at worst and cross-checked by the un-deduplicated run; offsets confined to [-(L+1),2L+2].",
+         "Breadth-first search over all histories of Read(k)/Seek(o,whence) with boundary arguments on single-block, wrapped and multi-level files, one and two readers (same node / separate nodes), deduplicated on the complete private state of the readers (reflection fingerprint over unexported fields: offsets, inner MultiReader, remaining child readers, any cache), until no new state; plus all depth-3 histories without deduplication.",
+         "State key is exact (no abstraction); offsets confined to [-(L+1),2L+2]; searches capped at 40k/400k states (reported).",
          "DESIGN.md §5 C04"),
  "C09": ("bounded-exhaustive message product x deviation-bounded wire presentations, differential vs gogo-protobuf",
          "Full product of 290304 logical messages in canonical form, and every wire presentation within 1-2 deviations (field transposition, packed run, unknown fields, non-minimal varints) of a covering corpus plus all permutations of small messages, decoded by this library and by the gogo codec generated from unixfs.proto; encode direction, canonical byte equality and permission bits checked.",
@@ -67,8 +67,8 @@ CHECKS = {
          "Every link list of length <= 4/5 over {absent,'',a,b} (all orders, duplicates) viewed as directory / link map (5 payload classes), built directly and decoded, and every sharded directory of the universe subsets from both writers: iteration count == Length, over-read error, yielded keys resolvable, unyielded keys absent, four lookup entry points and both iterators agree.",
          "Alphabet of 4 names.",
          "DESIGN.md §5 C15"),
- "C05": ("bounded-exhaustive range/lookup/path enumeration with request log vs independent block-span model",
-         "Every range [a,b) of every small file shape (both writers), every member/non-member lookup on every sharded directory of the universe subsets (cold and warm), every path (and perturbation) of every small tree: the set of links requested from storage must be a subset of what an independent walk of the stored blocks says the request needs.",
+ "C05": ("bounded-exhaustive range/lookup/path enumeration with request log vs independent block-span model + schedule exploration of concurrent range reads",
+         "Every range [a,b) of every small file shape (both writers), every member/non-member lookup on every sharded directory of the universe subsets (cold and warm), every path (and perturbation) of every small tree (incl. unsorted directory blocks and white-space sibling names), every pair of requests on one reader, and (instrumented overlay build) every interleaving within 2 preemptions of two goroutines reading two ranges on one shared node: the set of links requested from storage must be a subset of what an independent walk of the stored blocks says the request needs.",
          "File DAGs are those either writer produces (BlockSizes present). Model parses dag-pb/UnixFS itself (protowire + gogo).",
          "DESIGN.md §5 C05"),
  "C07": ("bounded-exhaustive shape enumeration, differential vs reference balanced importer",
@@ -84,8 +84,8 @@ CHECKS = {
          "Model = own dag-pb parser + gogo unixfs_pb over stored blocks.",
          "DESIGN.md §5 C11"),
  "C20": ("bounded-exhaustive enumeration with ordered request log vs independent DFS",
-         "For every small file shape, sharded directory and tree path, the sequence of first requests per distinct link (full read, preload reifier/selector, entity selector, MapIterator, Length, path walk) must equal the depth-first link-order walk computed from the stored blocks; each run twice.",
-         "In-process repetition for determinism (map-order choice exploration is part of C10's instrumented build).",
+         "For every small file shape (both writers and hand-written encodings), sharded directory and tree path, the sequence of first requests per distinct link (full read, preload reifier/selector, entity selector, MapIterator, Length, path walk) must equal the depth-first link-order walk computed from the stored blocks; each run twice.",
+         "Built from the instrumented overlay: every case runs under three iteration orders of every map range in the module, and twice in-process.",
          "DESIGN.md §5 C20"),
 }
 
